@@ -117,7 +117,7 @@ def run_both(real_cmd, model_cmd, lines, env, nchunks=8):
         ro, mo = [], []
         for c, a, b in zip(chunks, fr, fm):
             rc, o, err = a.result()
-            o = [l for l in o if l.startswith(("R ", "W ", "F ", "S", "bad-op"))]
+            o = [l for l in o if l.startswith(("R ", "W ", "F ", "A ", "S", "bad-op"))]
             if len(o) != len(c):
                 raise RuntimeError(f"implementation harness answered {len(o)} lines for {len(c)} requests (rc={rc}): {err[-300:]}")
             ro += o
@@ -337,6 +337,51 @@ def evaluate(ctx, batch, real_cmd, model_cmd, env, problems, reasons):
             if r != " | ".join(parts[:2]):
                 problems.append(("correspondence", line, f"impl {r!r} vs model {' | '.join(parts[:2])!r}", None))
                 nprob += 1
+        elif meta[0] == "ag":
+            _, kind, text, expected, mutated, intspelled = meta
+            ctx.count(1, key=line)
+            ctx.hist("kind", "aggregate-" + kind)
+            why, vkey = None, f"AGG:{kind}:{hx(text)}"
+            if expected is not None and r != expected:
+                why = f"aggregate {text!r} of {kind} grammar tokens: expected {expected!r}, implementation answers {r!r}"
+                if intspelled and r == expected.replace("sev=NULL", "sev=WARNING"):
+                    vkey = AGG_PENDING_KEY
+                    why = (f"LIST OF NUMBER {text!r}: an element spelled as an integer is read to its value but reported "
+                           f"WARNING (RealNode reads NUMBER elements with ReadReal, which demands a decimal point): {r!r}")
+            elif mutated and parse_r(r).get("sev") in ("NULL", "USERMSG"):
+                why = f"malformed aggregate {text!r} of {kind} read without any error: {r!r}"
+                if mutated == "missing":
+                    vkey = AGG_MISSING_KEY
+                    why = (f"aggregate {text!r} of {kind} with an element missing: the element is stored as unset and nothing is "
+                           f"reported: {r!r}")
+            if why:
+                from vlib import findings as KF
+                if KF.lookup(ctx.pid, vkey):
+                    if ("known", vkey) not in reasons:
+                        reasons[("known", vkey)] = True
+                        problems.append(("property", vkey, why, {"request": line}))
+                    nprob += 1
+                    continue
+                if vkey in AGG_PENDING:
+                    if ("pending", vkey) not in reasons:
+                        reasons[("pending", vkey)] = True
+                        print(f"PENDING-FINDING: property=C09 key={vkey} request=`{line}` what={why}")
+                        ctx.cov.setdefault("pending_findings", []).append({"key": vkey, "request": line, "what": why})
+                    if r != parts[0]:
+                        problems.append(("correspondence", line, f"impl {r!r} vs model {parts[0]!r}", None))
+                        nprob += 1
+                    continue
+                rs = ("ag-" + kind, reason_of(why))
+                if rs not in reasons:
+                    reasons[rs] = True
+                    problems.append(("property", vkey, why,
+                                     {"kind": kind, "text": text, "request": line, "implementation": r, "model": parts[0],
+                                      "how": "feed `request` to harness/h_literals.cc built on corpus/C09/lit.exp (./check C09 --replay FILE)"}))
+                nprob += 1
+                continue
+            if r != parts[0]:
+                problems.append(("correspondence", line, f"impl {r!r} vs model {parts[0]!r}", None))
+                nprob += 1
         elif meta[0] == "rdc":
             ctx.count(1, key=line)
             ctx.hist("kind", "sep-" + meta[1])
@@ -526,6 +571,80 @@ def literal_batches(ctx, quick):
     return out
 
 
+# ---- aggregates of simple kinds: STEPattribute::STEPread of a required LIST OF <kind> attribute
+AGG_POOL = {
+    "INTEGER": [("0", "i:0"), ("-12", "i:-12"), ("+7", "i:7"), ("007", "i:7"), ("9223372036854775806", "i:9223372036854775806")],
+    "REAL": [("1.5", None), ("-2.E1", None), ("0.0", None), ("+1.25E-3", None)],
+    "NUMBER": [("1.5", None), ("-2.E1", None), ("3", None), ("-40", None)],
+    "STRING": [("'a'", None), ("''", None), ("'b''c'", None), ("'x\\S\\''", None), ("', )'", None)],
+    "BINARY": [('"0A"', "b:" + "3041"), ('"1"', "b:31"), ('"3FF"', "b:334646")],
+    "BOOLEAN": [(".T.", "e:T"), (".F.", "e:F")],
+    "LOGICAL": [(".T.", "e:T"), (".F.", "e:F"), (".U.", "e:U")],
+    "ENUM": [(".RED.", "e:RED"), (".GREEN.", "e:GREEN"), (".BLUE_1.", "e:BLUE_1")],
+    "REF": [("#1", "#1"), ("#5", "#5"), ("#12", "#12"), ("#123", "#123"), ("#2147483647", "#2147483647")],
+}
+AGG_LAYOUT = ["", " ", "/*c*/", " /* , ) */ ", "\n", "/**//***/"]
+AGG_PENDING_KEY = "agg:number-element-spelled-as-integer"
+AGG_MISSING_KEY = "agg:missing-element-read-as-unset"
+# found in the deepening round, reported in notes/C09.md with the proposed `finding:` lines; announced on every run and not
+# counted as violations until the integrator has listed (or repaired) them — the element loop belongs to property C01
+AGG_PENDING = (AGG_PENDING_KEY, AGG_MISSING_KEY)
+
+
+def agg_expected(kind, tok, val):
+    if val is not None:
+        return val
+    if kind in ("REAL", "NUMBER"):
+        return "r:" + dbl_bits(float(tok.replace("E", "e")))
+    return "s:" + hx(tok)
+
+
+def aggregate_batch(ctx, quick):
+    """`( e1 , ... , en )` of grammar tokens of every simple kind with every layout around the elements (oracle: severity NULL,
+    the list of the tokens' values, stream at the delimiter behind the `)`), the empty aggregate, and malformed variants
+    (oracle: an error is flagged); model = attrSTEPread/aggrRead of P21/Reader.lean, the model of the C09_aggr_* theorems"""
+    rng = ctx.rng
+    b = Batch("aggregates")
+
+    def add(kind, text, expected, mutated, intspelled=False):
+        b.raw(f"ag {kind} {hx(text)}", ("ag", kind, text, expected, mutated, intspelled))
+
+    for kind in KINDS:
+        pool = AGG_POOL[kind]
+        for lay in AGG_LAYOUT:
+            for d in (",", ")"):
+                txt = "(" + lay + ")" + d
+                add(kind, txt, f"A sev=NULL val=[] pos={len(txt) - 1} eof=0 fail=0", False)
+        lists = [[t] for t in pool] + [[x, y] for x in pool for y in pool]
+        if not quick:
+            lists += [[x, y, z] for x in pool for y in pool for z in pool]
+        for _ in range(40 if quick else 400):
+            lists.append([rng.choice(pool) for _ in range(rng.randrange(3, 9))])
+        for els in lists:
+            for rep in range(2 if quick else 4):
+                lays = [(rng.choice(AGG_LAYOUT), rng.choice(AGG_LAYOUT)) for _ in els] if rep else [("", "")] * len(els)
+                body = ",".join(pre + t + post for (t, _), (pre, post) in zip(els, lays))
+                tail = rng.choice(AGG_LAYOUT) if rep else ""
+                d = rng.choice(",)")
+                txt = "(" + body + ")" + tail + d + "'next'"
+                vals = ";".join(agg_expected(kind, t, v) for t, v in els)
+                pos = len("(" + body + ")" + tail)
+                ints = kind == "NUMBER" and any("." not in t for t, _ in els)
+                add(kind, txt, f"A sev=NULL val=[{vals}] pos={pos} eof=0 fail=0", False, ints)
+        # malformed: an error must be flagged (what is stored is compared with the model only)
+        t1, t2 = pool[0][0], pool[-1][0]
+        for txt in [f"({t1} {t2}),", f"({t1},{t2}", f"({t1},{t2} ", f"(({t1}),{t2}),",
+                    f"({t1},x),", f"({t1};{t2}),", f"({t1},$),", f"{t1},{t2}),", f"[{t1}],", f"({t1}/*never closed ,{t2}),",
+                    f"({t1}\x00,{t2}),"]:
+            add(kind, txt, None, True)
+        # an element that is not there at all
+        for txt in [f"({t1},,{t2}),", f"({t1},),", f"(,{t1}),", f"(/*c*/,{t1}),", f"({t1}, /*c*/ ,{t2}),", f"({t1},{t2}, ),"]:
+            add(kind, txt, None, "missing")
+        for txt in ["$,", " ,", ")", ""]:
+            add(kind, txt, None, None)     # missing / null aggregate for a required attribute: INCOMPLETE; model vs implementation
+    return b
+
+
 def stream_batch(ctx, quick):
     rng = ctx.rng
     b = Batch("istream-scripts")
@@ -605,7 +724,7 @@ def run(ctx):
     problems, reasons = [], {}
     sb = stream_batch(ctx, quick)
     evaluate(ctx, sb, [sx], model, None, problems, reasons)
-    for batch in literal_batches(ctx, quick):
+    for batch in literal_batches(ctx, quick) + [aggregate_batch(ctx, quick)]:
         evaluate(ctx, batch, [exe], model, b.env(), problems, reasons)
     if ctx.tier == "thorough":
         # the same corpus + short exhaustive stream once more under ASan/UBSan (memory behaviour is observed, not modelled)
@@ -646,6 +765,8 @@ def replay(ctx, path):
         val = {"INTEGER": "i:" + w[2], "REAL": "r:" + w[2], "NUMBER": "r:" + w[2], "STRING": "s:" + w[2], "BINARY": "b:" + w[2],
                "REF": "#" + w[2]}.get(w[1], "e:" + w[2])
         bt.raw(line, ("wr", w[1], w[2], True, val))
+    elif w[0] == "ag":
+        bt.raw(line, ("ag", w[1], unhx(w[2]).decode("latin-1"), None, True, False))
     else:
         bt.raw(line, (w[0],))
     problems, reasons = [], {}
